@@ -3,7 +3,7 @@
 use crate::asmgen::{self, GenOpts};
 use crate::out::Out;
 use crate::rng::Rng;
-use crate::sess::{dump, hex2, hexs};
+use crate::sess::{dump, hexs, parse_hex};
 use emulator_2a_lib::compiler::Translator;
 use emulator_2a_lib::machine::{Machine, MachineConfig, State};
 use emulator_2a_lib::parser::AsmParser;
@@ -207,6 +207,216 @@ const BYTE_TEXTS: &[&str] = &[
     "0x+7", "0b+101", "++1", "0x-1", "١٢", "0o17", "00000000255", "0x0000ff", "0b0000000011111111", "255", "+255", "0xFf",
 ];
 
+fn unhex_str(h: &str) -> Option<String> {
+    String::from_utf8(parse_hex(h)?).ok()
+}
+
+fn parse_csv(s: &str) -> Option<Vec<usize>> {
+    if s == "-" {
+        return Some(vec![]);
+    }
+    s.split(',').map(|x| x.parse().ok()).collect()
+}
+
+fn parse_cfg(s: &str) -> Option<MachineConfig> {
+    let v: Vec<u64> = s.split(',').map(|x| x.parse().ok()).collect::<Option<Vec<u64>>>()?;
+    if v.len() != 13 {
+        return None;
+    }
+    let mut c = MachineConfig::default();
+    c.input_fc = v[0] as u8;
+    c.input_fd = v[1] as u8;
+    c.input_fe = v[2] as u8;
+    c.input_ff = v[3] as u8;
+    c.digital_input1 = v[4] as u8;
+    c.temp = f32::from_bits(v[5] as u32);
+    c.jumper1 = v[6] == 1;
+    c.jumper2 = v[7] == 1;
+    c.analog_input1 = f32::from_bits(v[8] as u32);
+    c.analog_input2 = f32::from_bits(v[9] as u32);
+    c.universal_input_output1 = v[10] == 1;
+    c.universal_input_output2 = v[11] == 1;
+    c.universal_input_output3 = v[12] == 1;
+    Some(c)
+}
+
+fn parse_st(s: &str) -> Option<State> {
+    match s {
+        "R" => Some(State::Running),
+        "S" => Some(State::Stopped),
+        "E" => Some(State::ErrorStopped),
+        _ => None,
+    }
+}
+
+/// The real runner on the arguments of a `runner` / `spec.runner` / `spec.stepped` line.
+fn eval_runner(tag: &str, text: &str, c: &MachineConfig, n: usize, ints: &[usize], resets: &[usize]) -> String {
+    let config = RunnerConfigBuilder::default()
+        .with_machine_config(c.clone())
+        .with_max_cycles(n)
+        .with_resets(resets.to_vec())
+        .with_interrupts(ints.to_vec())
+        .with_program(text)
+        .build()
+        .unwrap();
+    let res = catch_unwind(AssertUnwindSafe(|| config.run()));
+    match res {
+        Err(_) => "panic".into(),
+        Ok(Err(_)) => "syntax".into(),
+        Ok(Ok(r)) => {
+            if tag == "spec.stepped" {
+                // the property statement executed on the real machine
+                match stepped(text, c, n, ints, resets) {
+                    Some((m, k)) => {
+                        if m == r.machine && k == r.emulated_cycles {
+                            "same".to_string()
+                        } else {
+                            format!("differs stepped-k={} runner-k={}", k, r.emulated_cycles)
+                        }
+                    }
+                    None => "stepped-failed".into(),
+                }
+            } else {
+                format!("ok k={} {}", r.emulated_cycles, dump(&r.machine))
+            }
+        }
+    }
+}
+
+/// `RunExpectations::verify` against a result whose machine reports (state, FE, FF).
+fn eval_verify(ws: &[&str]) -> Option<String> {
+    let (s, fe, ff) = (parse_st(ws[1])?, ws[2].parse::<u8>().ok()?, ws[3].parse::<u8>().ok()?);
+    let config = RunnerConfigBuilder::default().with_max_cycles(0).with_program("#! mrasm\n").build().unwrap();
+    let mut r = config.run().ok()?;
+    r.machine.raw_mut().bus_mut().write(0xFE, fe);
+    r.machine.raw_mut().bus_mut().write(0xFF, ff);
+    let f = r.machine.verif_state();
+    r.machine.raw_mut().verif_force(&f, s);
+    let mut b = RunExpectationsBuilder::default();
+    if ws[4] != "-" {
+        b.expect_state(parse_st(ws[4])?);
+    }
+    if ws[5] != "-" {
+        b.expect_output_fe(ws[5].parse().ok()?);
+    }
+    if ws[6] != "-" {
+        b.expect_output_ff(ws[6].parse().ok()?);
+    }
+    let e = b.build().unwrap();
+    Some(match e.verify(&r) {
+        Ok(()) => "ok".to_string(),
+        Err(VerificationError::StateMismatch { expected, found }) => format!("state {} {}", st_str(expected), st_str(found)),
+        Err(VerificationError::OutputFeMismatch { expected, found }) => format!("fe {} {}", expected, found),
+        Err(VerificationError::OutputFfMismatch { expected, found }) => format!("ff {} {}", expected, found),
+    })
+}
+
+fn volt_text(bits: u32) -> String {
+    format!("{}", f32::from_bits(bits))
+}
+
+/// The real binary on the arguments of a `spec.cli` line.
+fn eval_cli(ws: &[&str]) -> Option<String> {
+    let bin = std::env::var("VERIF_BIN").ok()?;
+    let dir = std::env::var("VERIF_CLI_DIR").unwrap_or_else(|_| "/verif/work/c12-cli".into());
+    std::fs::create_dir_all(&dir).ok()?;
+    let path = format!("{}/p{}.asm", dir, std::process::id());
+    if ws[1] == "!" {
+        let _ = std::fs::remove_file(&path);
+    } else {
+        std::fs::write(&path, unhex_str(ws[1])?).ok()?;
+    }
+    let n: usize = ws[2].parse().ok()?;
+    let ints = parse_csv(ws[3])?;
+    let resets = parse_csv(ws[4])?;
+    let mut argv: Vec<String> = vec!["run".into()];
+    for (flag, t) in ["--fc", "--fd", "--fe", "--ff", "--di1"].iter().zip(ws[5..10].iter()) {
+        argv.push(format!("{}={}", flag, unhex_str(t)?));
+    }
+    let rest: Vec<u64> = ws[10].split(',').map(|x| x.parse().ok()).collect::<Option<Vec<u64>>>()?;
+    if rest.len() != 8 {
+        return None;
+    }
+    argv.push(format!("--temp={}", volt_text(rest[0] as u32)));
+    argv.push(format!("--ai1={}", volt_text(rest[3] as u32)));
+    argv.push(format!("--ai2={}", volt_text(rest[4] as u32)));
+    for (flag, on) in [("--j1", rest[1]), ("--j2", rest[2]), ("--uio1", rest[5]), ("--uio2", rest[6]), ("--uio3", rest[7])] {
+        if on == 1 {
+            argv.push(flag.into());
+        }
+    }
+    for c in &ints {
+        argv.push(format!("--interrupt={}", c));
+    }
+    for c in &resets {
+        argv.push(format!("--reset={}", c));
+    }
+    argv.push(path.clone());
+    argv.push(n.to_string());
+    if ws[11] == "1" {
+        argv.push("verify".into());
+        if ws[12] != "-" {
+            argv.push(format!("--state={}", ws[12]));
+        }
+        if ws[13] != "-" {
+            argv.push(format!("--fe={}", unhex_str(&ws[13][1..])?));
+        }
+        if ws[14] != "-" {
+            argv.push(format!("--ff={}", unhex_str(&ws[14][1..])?));
+        }
+    }
+    let o = std::process::Command::new(&bin).args(&argv).env("NO_COLOR", "1").env("TMPDIR", &dir).output();
+    let _ = std::fs::remove_file(&path);
+    Some(match o {
+        Err(e) => format!("spawn-failed {}", e),
+        Ok(o) => {
+            let code = o.status.code().map(|c| c.to_string()).unwrap_or_else(|| "signal".into());
+            let so = String::from_utf8_lossy(&o.stdout).to_string();
+            let mut cyc = None;
+            let mut st = None;
+            let mut fe = None;
+            let mut ff = None;
+            for l in so.lines() {
+                let l = l.trim();
+                if let Some(r) = l.strip_prefix("Cycles:") {
+                    cyc = Some(r.trim().to_string());
+                } else if let Some(r) = l.strip_prefix("State:") {
+                    st = Some(match r.trim() { "Running" => "R", "Stopped" => "S", "Error" => "E", _ => "?" }.to_string());
+                } else if let Some(r) = l.strip_prefix("Output:") {
+                    fe = r.trim().strip_prefix("FE:").map(|x| x.trim().to_string());
+                } else if let Some(r) = l.strip_prefix("FF:") {
+                    ff = Some(r.trim().to_string());
+                }
+            }
+            match (cyc, st, fe, ff) {
+                (Some(c), Some(s), Some(a), Some(b)) => format!("exit={} cycles={} state={} fe={} ff={}", code, c, s, a, b),
+                (None, None, None, None) => format!("exit={}", code),
+                other => format!("exit={} garbled {:?}", code, other),
+            }
+        }
+    })
+}
+
+/// The implementation's answer to one self-contained C12 line (generation and replay share this).
+pub fn eval_line(ws: &[&str]) -> Option<String> {
+    match ws[0] {
+        "spec.runner" | "runner" | "spec.stepped" if ws.len() == 6 => {
+            let text = unhex_str(ws[1])?;
+            Some(eval_runner(ws[0], &text, &parse_cfg(ws[5])?, ws[2].parse().ok()?, &parse_csv(ws[3])?, &parse_csv(ws[4])?))
+        }
+        "spec.verify" if ws.len() == 7 => eval_verify(ws),
+        "spec.cli" if ws.len() == 15 => eval_cli(ws),
+        _ => None,
+    }
+}
+
+fn emit_line(out: &mut Out, line: &str) -> String {
+    let ws: Vec<&str> = line.split(' ').collect();
+    let r = eval_line(&ws).unwrap_or_else(|| "bad-op".into());
+    out.emit(line, &r);
+    r
+}
+
 pub fn run_c12(out: &mut Out, seed: u64, thorough: bool) {
     let mut rng = Rng::new(seed);
     let pool = program_pool();
@@ -223,123 +433,84 @@ pub fn run_c12(out: &mut Out, seed: u64, thorough: bool) {
         let resets = if rng.chance(1, 2) { gen_cycles(&mut rng, n) } else { vec![] };
         let cfg = gen_cfg(&mut rng);
         let args = format!("{} {} {} {} {}", hexs(text.as_bytes()), n, csv(&ints), csv(&resets), cfg_str(&cfg.c));
-        let config = RunnerConfigBuilder::default()
-            .with_machine_config(cfg.c.clone())
-            .with_max_cycles(n)
-            .with_resets(resets.clone())
-            .with_interrupts(ints.clone())
-            .with_program(&text)
-            .build()
-            .unwrap();
-        let res = catch_unwind(AssertUnwindSafe(|| config.run()));
-        match res {
-            Err(_) => {
-                out.emit(&format!("spec.runner {}", args), "panic");
-                out.count("run-panic");
+        // the budget-recursive specification (spec.runner), the loop transcription of the model (runner),
+        // and the property statement executed step by step on the real machine (spec.stepped)
+        let r = emit_line(out, &format!("spec.runner {}", args));
+        if r == "panic" {
+            out.count("run-panic");
+        } else if r == "syntax" {
+            out.count("run-syntax-error");
+        } else {
+            emit_line(out, &format!("runner {}", args));
+            emit_line(out, &format!("spec.stepped {}", args));
+            let (m, k) = stepped(&text, &cfg.c, n, &ints, &resets).expect("stepped");
+            out.count(&format!("end-{}", st_str(m.state())));
+            out.count(if k == n { "budget-used-up" } else { "stopped-early" });
+            if n == 0 {
+                out.count("budget-0");
             }
-            Ok(Err(_)) => {
-                out.emit(&format!("spec.runner {}", args), "syntax");
-                out.count("run-syntax-error");
+            if !ints.is_empty() {
+                out.count("with-interrupts");
             }
-            Ok(Ok(r)) => {
-                let d = dump(&r.machine);
-                out.emit(&format!("spec.runner {}", args), &format!("ok k={} {}", r.emulated_cycles, d));
-                // loop transcription in the model (tied to the specification by run_eq_specRun)
-                out.emit(&format!("runner {}", args), &format!("ok k={} {}", r.emulated_cycles, d));
-                // the property statement executed on the real machine
-                let same = match stepped(&text, &cfg.c, n, &ints, &resets) {
-                    Some((m, k)) => {
-                        if m == r.machine && k == r.emulated_cycles {
-                            "same".to_string()
-                        } else {
-                            format!("differs stepped-k={} runner-k={}", k, r.emulated_cycles)
-                        }
+            if !resets.is_empty() {
+                out.count("with-resets");
+            }
+            if ints.iter().chain(resets.iter()).any(|c| *c >= n) {
+                out.count("schedule-entry-at-or-beyond-budget");
+            }
+            if i < 3 {
+                out.sample(format!("N={} ints={} resets={} -> k={} state={} FE={} FF={}", n, csv(&ints), csv(&resets),
+                    k, st_str(m.state()), m.bus().output_fe(), m.bus().output_ff()));
+            }
+            // expectations: every subset x matching / mismatching values
+            let (s, fe, ff) = (m.state(), m.bus().output_fe(), m.bus().output_ff());
+            for mask in 0..8u32 {
+                for wrong in 0..8u32 {
+                    if wrong & !mask != 0 {
+                        continue;
                     }
-                    None => "stepped-failed".into(),
-                };
-                out.emit(&format!("spec.stepped {}", args), &same);
-                out.count(&format!("end-{}", st_str(r.machine.state())));
-                out.count(if r.emulated_cycles == n { "budget-used-up" } else { "stopped-early" });
-                if !ints.is_empty() {
-                    out.count("with-interrupts");
-                }
-                if !resets.is_empty() {
-                    out.count("with-resets");
-                }
-                if i < 3 {
-                    out.sample(format!("N={} ints={} resets={} -> k={} state={} FE={} FF={}", n, csv(&ints), csv(&resets),
-                        r.emulated_cycles, st_str(r.machine.state()), r.machine.bus().output_fe(), r.machine.bus().output_ff()));
-                }
-                // expectations: every subset x matching / mismatching values
-                let (s, fe, ff) = (r.machine.state(), r.machine.bus().output_fe(), r.machine.bus().output_ff());
-                for mask in 0..8u32 {
-                    for wrong in 0..8u32 {
-                        if wrong & !mask != 0 {
-                            continue;
-                        }
-                        if !thorough && (mask * 8 + wrong + i as u32) % 3 != 0 {
-                            continue;
-                        }
-                        let mut b = RunExpectationsBuilder::default();
-                        let xs = if wrong & 1 != 0 { if s == State::Running { State::Stopped } else { State::Running } } else { s };
-                        let xfe = if wrong & 2 != 0 { fe.wrapping_add(1 + rng.below(255) as u8) } else { fe };
-                        let xff = if wrong & 4 != 0 { ff.wrapping_add(1 + rng.below(255) as u8) } else { ff };
-                        if mask & 1 != 0 {
-                            b.expect_state(xs);
-                        }
-                        if mask & 2 != 0 {
-                            b.expect_output_fe(xfe);
-                        }
-                        if mask & 4 != 0 {
-                            b.expect_output_ff(xff);
-                        }
-                        let e = b.build().unwrap();
-                        let v = match e.verify(&r) {
-                            Ok(()) => "ok".to_string(),
-                            Err(VerificationError::StateMismatch { expected, found }) => format!("state {} {}", st_str(expected), st_str(found)),
-                            Err(VerificationError::OutputFeMismatch { expected, found }) => format!("fe {} {}", expected, found),
-                            Err(VerificationError::OutputFfMismatch { expected, found }) => format!("ff {} {}", expected, found),
-                        };
-                        let f = |on: bool, t: String| if on { t } else { "-".to_string() };
-                        out.emit(
-                            &format!("spec.verify {} {} {} {} {} {}", st_str(s), fe, ff, f(mask & 1 != 0, st_str(xs).into()),
-                                f(mask & 2 != 0, xfe.to_string()), f(mask & 4 != 0, xff.to_string())),
-                            &v,
-                        );
-                        out.count(if v == "ok" { "verify-ok" } else { "verify-mismatch" });
+                    if !thorough && (mask * 8 + wrong + i as u32) % 3 != 0 {
+                        continue;
                     }
+                    let xs = if wrong & 1 != 0 {
+                        *rng.pick(&[State::Running, State::Stopped, State::ErrorStopped].iter().filter(|x| **x != s).cloned().collect::<Vec<_>>())
+                    } else { s };
+                    let xfe = if wrong & 2 != 0 { fe.wrapping_add(1 + rng.below(255) as u8) } else { fe };
+                    let xff = if wrong & 4 != 0 { ff.wrapping_add(1 + rng.below(255) as u8) } else { ff };
+                    let f = |on: bool, t: String| if on { t } else { "-".to_string() };
+                    let v = emit_line(out, &format!("spec.verify {} {} {} {} {} {}", st_str(s), fe, ff, f(mask & 1 != 0, st_str(xs).into()),
+                        f(mask & 2 != 0, xfe.to_string()), f(mask & 4 != 0, xff.to_string())));
+                    out.count(if v == "ok" { "verify-ok" } else { "verify-mismatch" });
                 }
             }
         }
         out.distinct_case(&args);
     }
     // the real binary
-    let bin = match std::env::var("VERIF_BIN") {
-        Ok(b) if std::path::Path::new(&b).exists() => b,
+    match std::env::var("VERIF_BIN") {
+        Ok(b) if std::path::Path::new(&b).exists() => {}
         _ => {
             out.notes.insert("cli".into(), "VERIF_BIN not set: command-line cases skipped".into());
             return;
         }
     };
-    let dir = std::env::var("VERIF_CLI_DIR").unwrap_or_else(|_| "/verif/work/c12-cli".into());
-    std::fs::create_dir_all(&dir).unwrap();
     let n_cli = if thorough { 6000 } else { 500 };
     for i in 0..n_cli {
         let text = gen_program(&mut rng, &pool);
         let missing = rng.chance(1, 25);
-        let path = format!("{}/p{}.asm", dir, i % 16);
-        if missing {
-            let _ = std::fs::remove_file(&path);
-        } else {
-            std::fs::write(&path, &text).unwrap();
-        }
         let n = match rng.below(6) {
             0 => rng.below(3) as usize,
             _ => rng.below(300) as usize,
         };
         let ints = gen_cycles(&mut rng, n);
         let resets = if rng.chance(1, 3) { gen_cycles(&mut rng, n) } else { vec![] };
-        let cfg = gen_cfg(&mut rng);
+        let mut cfg = gen_cfg(&mut rng);
+        if rng.chance(1, 4) {
+            // arbitrary voltages (negative, huge, NaN, infinite) as the CLI's f32 parser accepts them
+            cfg.c.temp = f32::from_bits(crate::gen::f32_bits(&mut rng));
+            cfg.c.analog_input1 = f32::from_bits(crate::gen::f32_bits(&mut rng));
+            cfg.c.analog_input2 = f32::from_bits(crate::gen::f32_bits(&mut rng));
+        }
         // byte arguments as texts
         let weird = rng.chance(1, 5);
         let mut bt: Vec<String> = [cfg.c.input_fc, cfg.c.input_fd, cfg.c.input_fe, cfg.c.input_ff, cfg.c.digital_input1]
@@ -350,43 +521,20 @@ pub fn run_c12(out: &mut Out, seed: u64, thorough: bool) {
             let k = rng.below(5) as usize;
             bt[k] = (*rng.pick(BYTE_TEXTS)).to_string();
         }
-        let mut argv: Vec<String> = vec!["run".into()];
-        for (flag, t) in ["--fc", "--fd", "--fe", "--ff", "--di1"].iter().zip(bt.iter()) {
-            argv.push(format!("{}={}", flag, t));
-        }
-        argv.push(format!("--temp={}", cfg.volts[0]));
-        argv.push(format!("--ai1={}", cfg.volts[1]));
-        argv.push(format!("--ai2={}", cfg.volts[2]));
-        for (flag, on) in [("--j1", cfg.c.jumper1), ("--j2", cfg.c.jumper2), ("--uio1", cfg.c.universal_input_output1),
-            ("--uio2", cfg.c.universal_input_output2), ("--uio3", cfg.c.universal_input_output3)] {
-            if on {
-                argv.push(flag.into());
-            }
-        }
-        for c in &ints {
-            argv.push(format!("--interrupt={}", c));
-        }
-        for c in &resets {
-            argv.push(format!("--reset={}", c));
-        }
-        argv.push(path.clone());
-        argv.push(n.to_string());
         // expectations
         let with_verify = rng.chance(2, 3);
         let mut xs = "-".to_string();
         let mut xfe = "-".to_string();
         let mut xff = "-".to_string();
         if with_verify {
-            argv.push("verify".into());
-            // aim at the true values half of the time: take them from an in-process run
-            let truth = if missing { None } else { stepped(&text, &cfg.c, n, &ints, &resets) };
+            // aim at the true values most of the time: take them from an in-process run
+            let truth = if missing { None } else { catch_unwind(AssertUnwindSafe(|| stepped(&text, &cfg.c, n, &ints, &resets))).unwrap_or(None) };
             if rng.chance(2, 3) {
                 let s = match (&truth, rng.below(3)) {
                     (Some((m, _)), 0..=1) => m.state(),
                     _ => *rng.pick(&[State::Running, State::Stopped, State::ErrorStopped]),
                 };
                 xs = match s { State::Running => "running", State::Stopped => "stopped", State::ErrorStopped => "error" }.to_string();
-                argv.push(format!("--state={}", xs));
             }
             if rng.chance(1, 2) {
                 let v = match (&truth, rng.below(3)) {
@@ -394,7 +542,6 @@ pub fn run_c12(out: &mut Out, seed: u64, thorough: bool) {
                     _ => rng.byte(),
                 };
                 xfe = if rng.chance(1, 10) { (*rng.pick(BYTE_TEXTS)).to_string() } else { radix_text(&mut rng, v) };
-                argv.push(format!("--fe={}", xfe));
             }
             if rng.chance(1, 2) {
                 let v = match (&truth, rng.below(3)) {
@@ -402,38 +549,8 @@ pub fn run_c12(out: &mut Out, seed: u64, thorough: bool) {
                     _ => rng.byte(),
                 };
                 xff = if rng.chance(1, 10) { (*rng.pick(BYTE_TEXTS)).to_string() } else { radix_text(&mut rng, v) };
-                argv.push(format!("--ff={}", xff));
             }
         }
-        let o = std::process::Command::new(&bin).args(&argv).env("NO_COLOR", "1").env("TMPDIR", &dir).output();
-        let imp = match o {
-            Err(e) => format!("spawn-failed {}", e),
-            Ok(o) => {
-                let code = o.status.code().map(|c| c.to_string()).unwrap_or_else(|| "signal".into());
-                let so = String::from_utf8_lossy(&o.stdout).to_string();
-                let mut cyc = None;
-                let mut st = None;
-                let mut fe = None;
-                let mut ff = None;
-                for l in so.lines() {
-                    let l = l.trim();
-                    if let Some(r) = l.strip_prefix("Cycles:") {
-                        cyc = Some(r.trim().to_string());
-                    } else if let Some(r) = l.strip_prefix("State:") {
-                        st = Some(match r.trim() { "Running" => "R", "Stopped" => "S", "Error" => "E", _ => "?" }.to_string());
-                    } else if let Some(r) = l.strip_prefix("Output:") {
-                        fe = r.trim().strip_prefix("FE:").map(|x| x.trim().to_string());
-                    } else if let Some(r) = l.strip_prefix("FF:") {
-                        ff = Some(r.trim().to_string());
-                    }
-                }
-                match (cyc, st, fe, ff) {
-                    (Some(c), Some(s), Some(a), Some(b)) => format!("exit={} cycles={} state={} fe={} ff={}", code, c, s, a, b),
-                    (None, None, None, None) => format!("exit={}", code),
-                    other => format!("exit={} garbled {:?}", code, other),
-                }
-            }
-        };
         let hx = |s: &str| hexs(s.as_bytes());
         let enc = |s: &str| if s == "-" { "-".to_string() } else { format!("={}", hx(s)) };
         let line = format!(
@@ -445,8 +562,9 @@ pub fn run_c12(out: &mut Out, seed: u64, thorough: bool) {
             cfg.c.universal_input_output1 as u8, cfg.c.universal_input_output2 as u8, cfg.c.universal_input_output3 as u8,
             with_verify as u8, xs, enc(&xfe), enc(&xff)
         );
+        let imp = emit_line(out, &line);
         if i < 2 {
-            out.sample(format!("2a-emulator {} => {}", argv.join(" "), imp));
+            out.sample(format!("{} => {}", line.chars().take(200).collect::<String>(), imp));
         }
         out.count(&format!("cli-{}", imp.split(' ').next().unwrap_or("?")));
         if missing {
@@ -455,8 +573,9 @@ pub fn run_c12(out: &mut Out, seed: u64, thorough: bool) {
         if weird {
             out.count("cli-odd-byte-text");
         }
-        out.emit(&line, &imp);
+        if with_verify {
+            out.count("cli-with-verify");
+        }
         out.distinct_case(&line);
     }
-    let _ = hex2(0);
 }
